@@ -26,6 +26,8 @@ func checkC20(c *Ctx) {
 	c.checkEnumTables()
 	c.checkUidCodec()
 	c.checkChannelSpellingInverse()
+	c.checkIdSpellings()
+	c.checkActingUserNotSession("C20.4d-p2p-name-of-acting-user", "p2p-name")
 }
 
 type fieldRef struct {
